@@ -987,6 +987,10 @@ class WCS(object):
         order = _scamp_max_order
         dim = order + 1
         matrix = np.zeros((dim, dim), dtype="f8")
+        # in the TPV convention a missing PVi_1 defaults to 1, all other
+        # missing coefficients to 0
+        indices = _scamp_map[prefix + "_1"]
+        matrix[indices[0], indices[1]] = 1.0
         count = 0
         for i in range(_scamp_max_ncoeff):
             if i not in _scamp_skip:
